@@ -498,14 +498,17 @@ func cmdCheck(args []string) int {
 		evObs = append(evObs, oe)
 	}
 	unsatN, totalN := P.NontrivialFinals()
+	branchQ, branchUnsat := P.BranchQueries()
 	ev := map[string]interface{}{
 		"property_id": *prop, "tier": *tier, "seed": seed, "level": "model_checking",
 		"wall_s": time.Since(t0).Seconds(), "violations": violations,
 		"coverage": map[string]interface{}{
-			"evaluations":         totalN + totalPaths,
-			"distinct_nontrivial": unsatN,
-			"rule": "one evaluation = one explored symbolic path of a harness or one distinct final SMT query (path condition AND NOT assertion); " +
-				"distinct_nontrivial counts distinct (assertion label, path condition) queries that were not decided by term simplification and that the solver portfolio answered unsat",
+			"evaluations":         totalN + branchQ + totalPaths,
+			"distinct_nontrivial": unsatN + branchUnsat,
+			"rule": "one evaluation = one explored symbolic path of a harness, one distinct final SMT query (path condition AND NOT assertion) or one distinct branch-feasibility query (path condition AND branch condition); " +
+				"distinct_nontrivial counts the distinct queries (keyed by the set of hash-consed conjuncts) that term simplification did not decide and that the solver answered unsat, i.e. assertions discharged plus program branches proved infeasible (e.g. the accepting branch of the verifier after tampering)",
+			"branch_queries":        branchQ,
+			"branch_queries_unsat":  branchUnsat,
 			"samples":              samples,
 			"obligation_details":   evObs,
 			"obligations":          totalN,
